@@ -22,7 +22,7 @@ EVIDENCE = os.environ.get("VERIF_EVIDENCE", os.path.join(VERIF, "evidence"))
 
 ENV = dict(os.environ)
 ENV["ASAN_OPTIONS"] = "detect_leaks=0:exitcode=77:abort_on_error=0:allocator_may_return_null=1:detect_stack_use_after_return=0"
-ENV["UBSAN_OPTIONS"] = "halt_on_error=1:exitcode=77:print_stacktrace=1"
+ENV["UBSAN_OPTIONS"] = "halt_on_error=1:abort_on_error=1:exitcode=77:print_stacktrace=1"
 ENV.setdefault("OMP_NUM_THREADS", "1")
 ENV.setdefault("OMP_WAIT_POLICY", "passive")
 ENV.setdefault("GOMP_SPINCOUNT", "0")
@@ -285,6 +285,10 @@ def run_check(pid, tier, seed, only_replay=None):
                 notes.append("case exceeded the per-case time limit; this property does not claim termination, so the budget running out is "
                              "inconclusive, not a violation (case kept at %s)" % keep)
                 merged["counters"]["cases_over_time_limit_inconclusive"] = merged["counters"].get("cases_over_time_limit_inconclusive", 0) + 1
+                continue
+            if n == 0 and "after this case had returned" in hdr.get("msg", ""):
+                # the process died between two cases and the last case alone does not reproduce it: as loud as an engine dying outside a case
+                violations.append((save_violation(pid, fpath), "engine died after a case had returned and replaying that case alone does not reproduce it"))
                 continue
             if n == 0:
                 notes.append("failure did not reproduce in 3 replays (not reported): %s %s" % (fpath, hdr.get("msg", "")))
